@@ -884,8 +884,10 @@ impl<'a> Message<'a> {
             });
         }
 
+        // bytes beyond the advertised length are not part of this message
+        let orig_data = &orig_data[..mlength + MessageHeader::LENGTH];
         let mut data_offset = MessageHeader::LENGTH;
-        let mut data = &data[MessageHeader::LENGTH..];
+        let mut data = &orig_data[MessageHeader::LENGTH..];
         let ending_attributes = [
             MessageIntegrity::TYPE,
             MessageIntegritySha256::TYPE,
